@@ -349,22 +349,24 @@ def _shard(shard, col: Collector):
         return
     if shard[0] == "zoo":
         # every member of the exception zoo as the answer of attempt 1..5 (after 0..4 transient failures), array and scalar path
+        zcfg = shard[2] if len(shard) > 2 else "unit"
         for name, make in zoo():
             for scalar in (False, True):
                 for j in range(5):
                     for t in ((1, 2) if j else (1,)):
                         choices = [t if i % 2 == 0 else 3 - t for i in range(j)] + [3]
                         col.case()
-                        col.nontrivial(("zoo", name, scalar, j, t))
+                        col.nontrivial(("zoo", zcfg, name, scalar, j, t))
                         try:
-                            ctx, out = run_once(body_factory("unit", 1, False, shard[1], False, scalar, make), choices)
+                            ctx, out = run_once(body_factory(zcfg, 1, False, shard[1], False, scalar, make), choices)
                         except Exception as e:
                             if type(e).__name__ != "ReplayDivergence":
                                 raise
                             out = [("C06:fewer-objective-calls-than-the-protocol-prescribes", str(e))]
                         for key, msg in out:
-                            col.violation(key + ":zoo", "zoo", "%s as answer of attempt %d (%s): %s" % (name, j + 1, "scalar" if scalar else "batch", msg),
-                                          {"name": name, "scalar": scalar, "choices": choices, "seed": shard[1]})
+                            col.violation(key + ":zoo" + ("" if zcfg == "unit" else ":behind-a-predicting-surrogate"), "zoo",
+                                          "%s as answer of attempt %d (%s, configuration %s): %s" % (name, j + 1, "scalar" if scalar else "batch", zcfg, msg),
+                                          {"name": name, "scalar": scalar, "choices": choices, "seed": shard[1], "cfg": zcfg})
         col.sample({"kind": "exception zoo", "classes": len(zoo()), "attempt": "1..5", "paths": ["batch", "scalar"]}, 1)
         return
     cfg, nbatch, extreme, bound, seed = shard[:5]
@@ -398,7 +400,7 @@ def replay(sub, case):
                 c14.check_worst(case["n"], 1, (0.5,) * case["n"], "sumsq", case["crit"], tuple(case["batches"]), tuple(case["fail_calls"]))]
     if sub == "zoo":
         make = dict(zoo())[case["name"]]
-        ctx, out = run_once(body_factory("unit", 1, False, case["seed"], False, case["scalar"], make), case["choices"])
+        ctx, out = run_once(body_factory(case.get("cfg", "unit"), 1, False, case["seed"], False, case["scalar"], make), case["choices"])
         return out
     body = body_factory(case["cfg"], case["nbatch"], case["extreme"], case["seed"], case.get("same_vector", False), case.get("scalar", False))
     ctx, out = run_once(body, case["choices"])
@@ -417,6 +419,7 @@ def run(tier, seed):
     shards.append(("neg_prec", 2, False, None, seed))
     shards.append(("parallel", 2 if tier == "thorough" else 1))
     shards.append(("zoo", seed))
+    shards.append(("zoo", seed, "neg_prec_surrogate_step2"))      # the same zoo with a predicting surrogate wrapper between Job and the objective
     shards.append(("worst",))
     shards.append(("returns",))
     shards.append(("bigbatch", "unit", seed))
@@ -434,3 +437,4 @@ def run(tier, seed):
     return col, {"exhaustive": col.counters.get("caps_hit", 0) == 0, "fault_alphabet": FAULTS, "configs": list(CONFIGS)}
 
 RULE += (' Beyond small: batches of 31..257 with scripted failures, 260 x 4 and 513 x 2 failures in one run (more than a thousand logged); objectives that return unusual values are not failures.')
+RULE += (' The exception zoo is also raised behind a predicting surrogate wrapper (scikit wrapper with a stub regressor, retraining every second evaluation).')
